@@ -477,6 +477,13 @@ def restore_enabled():
     insights.apply_default_enabled({"default_component_enabled": True})
 
 
+def rule_name(r, tag):
+    """dr.get_name of the rule the harness is about to define"""
+    if r.get("alias"):
+        return "%s.make_rule_%d.<locals>.report%s" % (r["module"], tag, r["alias"])
+    return "%s.r%d_%d" % (r["module"], r["id"], tag)
+
+
 class RuleSet(object):
     """the real components of one case"""
 
@@ -491,7 +498,7 @@ class RuleSet(object):
         self.configured = bool(conf)
         # the names the components WILL have (a configuration applied before they are defined names them already)
         predicted = {b["id"]: "%s.b%d_%d" % (MODULES[0], b["id"], tag) for b in case["bases"]}
-        predicted.update({r["id"]: "%s.r%d_%d" % (r["module"], r["id"], tag) for r in case["rules"]})
+        predicted.update({r["id"]: rule_name(r, tag) for r in case["rules"]})
         if conf and conf.get("before"):
             apply_real(conf["before"], predicted)
         for m in MODULES:
@@ -536,7 +543,9 @@ class RuleSet(object):
                             self.eff[i]["links"] = e["links"]
         self.graph = {c: set(dr.get_delegate(c).dependencies) for c in self.comps.values()}
         self.rule_ids = [r["id"] for r in case["rules"]]
-        self.by_name = {self.names[i]: i for i in self.rule_ids}
+        self.by_name = {}                      # a name may stand for SEVERAL rule objects
+        for i in self.rule_ids:
+            self.by_name.setdefault(self.names[i], []).append(i)
         self.stats = {}
 
     def base_present(self, b):
@@ -589,7 +598,12 @@ class RuleSet(object):
                 x = Crash(act["n"])
             x.vn = act["n"]
             raise x
-        fn.__name__ = fn.__qualname__ = "r%d_%d" % (r["id"], tag)
+        if r.get("alias"):
+            # DISTINCT rule objects under ONE fully qualified name (a factory's closure, a redefinition, a reload)
+            fn.__name__ = "report%s_%d" % (r["alias"], tag)
+            fn.__qualname__ = "make_rule_%d.<locals>.report%s" % (tag, r["alias"])
+        else:
+            fn.__name__ = fn.__qualname__ = "r%d_%d" % (r["id"], tag)
         mod = fake_module(r["module"])
         fn.__module__ = mod.__name__
         setattr(mod, fn.__name__, fn)
@@ -660,19 +674,26 @@ class RuleSet(object):
         return "run\t" + (",".join(str(i) for i in order if i in set(self.rule_ids)) or "-")
 
     # -- canonical forms
-    def canon_entry(self, e):
-        """never raises: an entry of an unexpected shape is canonicalised as such (and then differs from the model)"""
+    def canon_entry(self, e, objects=None):
+        """never raises: an entry of an unexpected shape is canonicalised as such (and then differs from the model).
+        objects: {id(response object): rule id} — the entry's source rule by OBJECT (names may be shared); without it
+        (a printed document) the entry carries no source"""
         if not isinstance(e, dict):
             return {"malformed": repr(e)[:200]}
         try:
-            return self._canon_entry(e)
+            c = self._canon_entry(e)
+            if objects is None:
+                c.pop("src", None)
+            else:
+                c["src"] = objects.get(id(e.get("details")), -1)
+            return c
         except Exception as ex:
             return {"malformed": repr(e)[:200], "error": type(ex).__name__}
 
     def _canon_entry(self, e):
         idks = [k for k in e if isinstance(k, str) and k.endswith("_id") and k != "system_id"]
         idk = idks[0] if len(idks) == 1 else None
-        return {"src": self.by_name.get(e.get("component"), -1),
+        return {"src": -1,
                 "idn": senc(idk) if idk else "?", "idv": senc(e[idk]) if idk else "?",
                 "component": cv(e.get("component")), "type": cv(e.get("type")), "key": cv(e.get("key")),
                 "details": cdict(e.get("details", {})), "tags": sorted(cv(t) for t in e.get("tags", [])),
@@ -688,7 +709,7 @@ class RuleSet(object):
         results = {}
         for t, es in (ev.results.items() if isinstance(ev.results, dict) else []):
             if es:
-                results[senc(t)] = [self.canon_entry(e) for e in es] if isinstance(es, (list, tuple)) else {"malformed": repr(es)[:200]}
+                results[senc(t)] = [self.canon_entry(e, inv) for e in es] if isinstance(es, (list, tuple)) else {"malformed": repr(es)[:200]}
         skips = ev.rule_skips if isinstance(ev.rule_skips, (list, tuple)) else [ev.rule_skips]
         return {"results": results,
                 "skips": [{"src": inv.get(id(s), -1), "fields": cdict(s)} for s in skips],
@@ -737,6 +758,7 @@ def canon_report(rs, resp):
 def canon_model_report(m):
     for h, t in m:
         for e in t.get("entries", []):
+            e.pop("src", None)             # a printed document does not say which rule OBJECT an entry came from
             e["tags"] = sorted(e["tags"])
     return sorted(m, key=lambda p: str(p[0]))
 
@@ -804,11 +826,82 @@ def named_missing(details):
     return req, groups
 
 
-def oracle_ruleset(rs, results, skips, exc_ids, metadata, mdkeys, b, limit, order, participants=None, ordered=True):
+def expected_listing(rs, r, want, limit):
+    """what the rule must be listed as: ("entry", heading/type, key, details, id) | ("skip", details) | None"""
+    if want[0] == "skip":
+        return ("skip", skip_render_len(rs, r, want[1], want[2])[1])
+    if want[0] == "none":
+        return ("entry", "none", "NONE_KEY", expected_details(plugins.make_none, "NONE_KEY", [], limit))
+    if want[0] == "resp" and want[1].response_type not in ("metadata", "metadata_key"):
+        cls = want[1]
+        return ("entry", cls.response_type, (want[2] if cls.key_name else None), expected_details(cls, want[2], want[3], limit))
+    return None
+
+
+def assign_by_name(rs, rules, wants, listed, skipped, limit):
+    """Entries and skip entries carry the rule's NAME, and several rule objects may share one name.  Hand every
+    observed item to one rule of that name: first the items that are exactly what a rule must be listed as, then the
+    remaining ones to the rules still waiting for one; what is left over is charged to the first rule of the name.
+    With a unique name the rule simply gets everything listed under it."""
+    mine_e = {r["id"]: [] for r in rules}
+    mine_s = {r["id"]: [] for r in rules}
+    groups = {}
+    for r in rules:
+        groups.setdefault(rs.names[r["id"]], []).append(r)
+    for name, members in groups.items():
+        pool_e, pool_s = list(listed.get(name, [])), list(skipped.get(name, []))
+        exp = {r["id"]: expected_listing(rs, r, wants[r["id"]], limit) for r in members}
+        def fits(r, x, head, e, strict):
+            if not (head == x[1] and e.get("key") == x[2] and dict(e.get("details", {})) == x[3]):
+                return False
+            if not strict:
+                return True
+            eff = rs.eff[r["id"]]
+            return (sorted(e.get("tags", [])) == sorted(set(eff["tags"] or []))
+                    and (e.get("links") or {}) == (eff["links"] or {}))
+        waiting = [r for r in members if exp[r["id"]] is not None]
+        for strict in (True, False):
+            still = []
+            for r in waiting:
+                x = exp[r["id"]]
+                hit = None
+                if x[0] == "entry":
+                    for k, (head, e) in enumerate(pool_e):
+                        if fits(r, x, head, e, strict):
+                            hit = k
+                            break
+                    if hit is not None:
+                        mine_e[r["id"]].append(pool_e.pop(hit))
+                    else:
+                        still.append(r)
+                else:
+                    for k, sk in enumerate(pool_s):
+                        if sk.get("details") == x[1]:
+                            hit = k
+                            break
+                    if hit is not None:
+                        mine_s[r["id"]].append(pool_s.pop(hit))
+                    else:
+                        still.append(r)
+            waiting = still
+        for r in waiting:
+            if exp[r["id"]][0] == "entry" and pool_e:
+                mine_e[r["id"]].append(pool_e.pop(0))
+            elif exp[r["id"]][0] == "skip" and pool_s:
+                mine_s[r["id"]].append(pool_s.pop(0))
+        mine_e[members[0]["id"]] += pool_e
+        mine_s[members[0]["id"]] += pool_s
+    return mine_e, mine_s
+
+
+def oracle_ruleset(rs, results, skips, exc_ids, metadata, mdkeys, b, limit, order, participants=None, ordered=True,
+                   identity=False):
     """results: {type: [entry dict]}, skips: [dict], exc_ids: set of rule ids with a recorded exception;
     participants: ids of the rules that took part in an evaluation (default: all); order: the rules in the order
     they were first evaluated (metadata: the last writer wins).  Multiplicities are counted (lists, not sets): a
-    rule that a later evaluation of the same evaluator meets again must still be listed once.
+    rule that a later evaluation of the same evaluator meets again must still be listed once.  Rules are rule
+    OBJECTS: several may share one fully qualified name, each has its own outcome (identity=True: the entries'
+    `details` / the skip entries ARE the response objects in the broker, so they are also counted per object).
     Returns a list of (description, finding-or-None)."""
     out = []
     case = rs.case
@@ -818,29 +911,59 @@ def oracle_ruleset(rs, results, skips, exc_ids, metadata, mdkeys, b, limit, orde
             listed.setdefault(e.get("component"), []).append((t, e))
     skipped = {}
     anonymous = 0
-    by_name = {n: i for i, n in rs.names.items()}
+    ids_by_name = {}
+    for i, n in rs.names.items():
+        ids_by_name.setdefault(n, []).append(i)
     for s in skips:
         if "rule_fqdn" in s:
             skipped.setdefault(s["rule_fqdn"], []).append(s)
         else:
             anonymous += 1
         # "dependencies met" is about presence in the broker, never about the value: what a skip entry names as
-        # missing must really be absent
+        # missing must really be absent (of several components with that name: at least one)
         nm = named_missing(s.get("details"))
         if nm:
             for n in nm[0] + [x for g in nm[1] for x in g]:
-                i = by_name.get(n)
-                if i is not None and rs.comps[i] in b:
+                ids = ids_by_name.get(n)
+                if ids and all(rs.comps[i] in b for i in ids):
                     out.append(("skip entry of %s names %s as missing but it is present in the broker (value %r)"
-                                % (s.get("rule_fqdn"), n, b[rs.comps[i]]), None))
+                                % (s.get("rule_fqdn"), n, b[rs.comps[ids[0]]]), None))
+    wants = {r["id"]: (spec_outcome(rs, r, b, limit) if (participants is None or r["id"] in participants) else ("nothing",))
+             for r in case["rules"]}
+    mine_e, mine_s = assign_by_name(rs, case["rules"], wants, listed, skipped, limit)
+    if identity:
+        objs = {}
+        for i in rs.rule_ids:
+            c = rs.comps[i]
+            if c in b:
+                objs[id(b[c])] = i
+        seen = {}
+        for t, es in results.items():
+            for e in es:
+                i = objs.get(id(e.get("details")))
+                seen[i] = seen.get(i, 0) + 1
+        for sk in skips:
+            i = objs.get(id(sk))
+            seen[i] = seen.get(i, 0) + 1
+        for r in case["rules"]:
+            x = expected_listing(rs, r, wants[r["id"]], limit)
+            n = seen.get(r["id"], 0)
+            if n != (1 if x else 0):
+                fnd = None
+                out.append(("the response OBJECT of rule %s (id %d, one of %d rules of that name) is listed %d times, expected %d"
+                            % (rs.names[r["id"]], r["id"], len(ids_by_name[rs.names[r["id"]]]), n, 1 if x else 0), fnd))
+        if seen.get(None):
+            out.append(("%d listed entries carry a response that is no rule's value in the broker" % seen[None], None))
     md_expect = {}
     mdk_expect = {}
     md_writes, mdk_writes = {}, {}       # every value written per key (ordered=False: sub-graphs ran concurrently)
     pos = {i: n for n, i in enumerate(order)}
     for r in sorted(case["rules"], key=lambda r: pos.get(r["id"], 10 ** 6)):
         name = rs.names[r["id"]]
-        want = spec_outcome(rs, r, b, limit) if (participants is None or r["id"] in participants) else ("nothing",)
-        n_res, n_skip, n_exc = len(listed.get(name, [])), len(skipped.get(name, [])), 1 if r["id"] in exc_ids else 0
+        if len(ids_by_name[name]) > 1:
+            name = "%s [rule %d of %d with this name]" % (name, r["id"], len(ids_by_name[name]))
+        want = wants[r["id"]]
+        n_res, n_skip, n_exc = len(mine_e[r["id"]]), len(mine_s[r["id"]]), 1 if r["id"] in exc_ids else 0
         merged = 0
         cls = None
         if want[0] == "resp":
@@ -877,7 +1000,7 @@ def oracle_ruleset(rs, results, skips, exc_ids, metadata, mdkeys, b, limit, orde
             if n_skip != 1:
                 out.append(("rule %s has missing dependencies but no skip entry names it" % name, finding))
             else:
-                s = skipped[name][0]
+                s = mine_s[r["id"]][0]
                 L, details = skip_render_len(rs, r, want[1], want[2])
                 if s.get("details") != details or s.get("type") != "skip":
                     out.append(("skip entry of %s does not name its missing dependencies: %r (expected details %r)"
@@ -892,7 +1015,7 @@ def oracle_ruleset(rs, results, skips, exc_ids, metadata, mdkeys, b, limit, orde
             if n_res != 1:
                 out.append(("rule %s returned a %s response but is listed %d times" % (name, t, n_res), None))
                 continue
-            head, e = listed[name][0]
+            head, e = mine_e[r["id"]][0]
             d = dr.get_delegate(rs.comps[r["id"]])
             mod = r["module"].split(".")[-1]
             problems = []
@@ -900,7 +1023,7 @@ def oracle_ruleset(rs, results, skips, exc_ids, metadata, mdkeys, b, limit, orde
                 problems.append("heading %r / type %r instead of %r" % (head, e.get("type"), t))
             if e.get("key") != key:
                 problems.append("key %r instead of %r" % (e.get("key"), key))
-            if e.get("component") != name:
+            if e.get("component") != rs.names[r["id"]]:
                 problems.append("component %r" % e.get("component"))
             eff = rs.eff[r["id"]]
             if sorted(e.get("tags", [])) != sorted(set(eff["tags"] or [])):
@@ -1125,7 +1248,7 @@ RUN_MODES = [(True, False), (True, True), (False, True)]
 SHOW_CHOICES = ["fail", "info", "pass", "none", "metadata", "fingerprint"]
 
 
-def gen_case(rng, quick, mode=None, islands=False):
+def gen_case(rng, quick, mode=None, islands=False, shared_names=True):
     """mode None: one rule set.  "disjoint" / "dependent": the rules are split into groups A and B for histories of
     several evaluations; a rule depends only on bases and on earlier rules of its own group (dependent: B rules
     may also depend on A rules).  islands: 2-6 DISJOINT sub-graphs — every base and rule belongs to one island and
@@ -1218,6 +1341,19 @@ def gen_case(rng, quick, mode=None, islands=False):
         rng.shuffle(show)
         fmts.append({"kind": kind, "missing": rng.random() < 0.5, "fail_only": rng.random() < 0.2, "show": show,
                      "render": render})
+    if shared_names and len(rules) >= 2 and rng.random() < 0.6:
+        # 2-5 DISTINCT rules under one fully qualified name (one or two such names), next to uniquely named ones
+        free = list(range(len(rules)))
+        rng.shuffle(free)
+        for label in ("A", "B")[:rng.choice([1, 1, 2])]:
+            k = min(len(free), rng.randint(2, 5))
+            if k < 2:
+                break
+            members, free = free[:k], free[k:]
+            module = rules[members[0]]["module"]
+            for j in members:
+                rules[j]["alias"] = label
+                rules[j]["module"] = module
     modes = {n: rng.choice(RUN_MODES) for n in ("InsightsEvaluator", "JsonFormat", "YamlFormat")}
     return {"limit": limit, "store_skips": rng.random() < 0.4, "bases": bases, "rules": rules, "fmts": fmts,
             "scenarios": UNIFORM_SCENARIOS + [gen_scenario(rng)], "modes": modes}
@@ -1239,7 +1375,7 @@ def gen_config(rng, case, default=None):
 
 def gen_config_case(rng, quick):
     """apply_configs(c1); define the rules; apply_configs(c2) [; apply_configs(c3)]; evaluate"""
-    case = gen_case(rng, quick)
+    case = gen_case(rng, quick, shared_names=False)      # the configuration glue addresses components by NAME
     case["config"] = {"before": gen_config(rng, case) if rng.random() < 0.8 else None,
                       "after": [gen_config(rng, case) for _ in range(rng.choice([1, 1, 2]))]}
     case["scenarios"] = [UNIFORM_SCENARIOS[rng.randrange(4)]]
@@ -1310,7 +1446,7 @@ def account(rs, fails, label, view, results, mdkeys, exc_ids, b, limit, order, m
     md = as_dict(label, "system.metadata", (view.get("system") or {}).get("metadata", {}), [])
     for k in md_drop:
         md.pop(k, None)
-    for desc, finding in guarded(fails, label, oracle_ruleset, rs, results, [dict(x) for x in view.get("skips", [])],
+    for desc, finding in guarded(fails, label, oracle_ruleset, rs, results, list(view.get("skips", [])),
                                  exc_ids, md, mdkeys, b, limit, order, **kw):
         fails.append((label + ": " + desc, finding))
 
@@ -1394,7 +1530,7 @@ def run_mode(rs, fails, cls_name, inc, par, graph, reference, ref_excs, lines=No
     order = [i for i in b.vorder if i in set(rs.rule_ids)]
     for vname, v in views:
         account(rs, fails, "%s, %s" % (label, vname), v, results_from_response(v), mdkeys, exc_ids, b, limit, order,
-                ordered=not par)
+                ordered=not par, identity=(vname == "get_response"))
         if reference is not None:
             for desc in guarded(fails, label, unordered_accounting, rs, "%s, %s" % (label, vname), v, reference):
                 fails.append((desc, None))
@@ -1468,7 +1604,7 @@ def _evaluate(rs, case, limit, lines, impl, kinds, fails, unfiltered, order0):
             # the oracle looks at what get_response() hands out (and broker.exceptions), not at the evaluator's fields;
             # decoration: format_response puts the release into the metadata
             account(rs, fails, name + ".get_response", resp, results_from_response(resp), mdkeys, exc_ids, b, limit, b.vorder,
-                    md_drop=("release",) if (sc is not None and ev.release) else ())
+                    md_drop=("release",) if (sc is not None and ev.release) else (), identity=True)
             for k, v in mdkeys.items():
                 if k not in RESERVED_HEADINGS and k not in (ev.results if isinstance(ev.results, dict) else {}) and resp.get(k) != v:
                     fails.append(("%s.get_response: metadata key %r is %r in the response, expected %r" % (name, k, resp.get(k), v), None))
@@ -1549,7 +1685,7 @@ def _evaluate(rs, case, limit, lines, impl, kinds, fails, unfiltered, order0):
                     fails.append(("%s: %s" % (opts, desc), None))
             # the formatter's own bookkeeping (JsonFormat has its own handle_result)
             account(rs, fails, type(fmt).__name__ + " " + opts, {"skips": own_skips, "system": {"metadata": fmt.metadata}},
-                    own, mdkeys, exc_ids, b, limit, b.vorder)
+                    own, mdkeys, exc_ids, b, limit, b.vorder, identity=True)
     return lines, impl, kinds, fails
 
 
@@ -1839,7 +1975,7 @@ def run_history(rs, ev_name, kind):
         fails.append((d, None))
     for vname, v in views:
         account(rs, fails, "%s, %s" % (label, vname), v, results_from_response(v), mdkeys, exc_ids, b, limit, order,
-                participants=participants)
+                participants=participants, identity=(vname == "get_response"))
     return lines, impl, kinds, fails
 
 
@@ -2041,6 +2177,10 @@ def run(chk):
                  "like the serial run; 55% of the plain rule sets consist of 2-6 disjoint islands plus dependency-free rules "
                  "(subgraphs:* counts); graph=None (the default group graph) is evaluated in fresh child interpreters, every "
                  "class in every mode (default-graph * counts)")
+    chk.rule += ("; 60% of the rule sets (never the configuration histories, which address components by name) hold one or two "
+                 "groups of 2-5 DISTINCT rules under ONE fully qualified name (module.make_rule_N.<locals>.reportX, as a "
+                 "factory's closures have) with different keys / types / dependency situations, next to uniquely named rules; "
+                 "outcomes are counted per rule OBJECT (shared-name:* counts)")
     chk.assumptions = [
         "the body of a rule is a fixed action (it does not look at its arguments); argument binding is C02's subject",
         "repr() of str is modelled for ASCII exactly and takes code points >= 0xa1 other than U+00AD as printable; values inside responses are None/bool/int/str/list of str",
@@ -2229,6 +2369,12 @@ def run(chk):
                     chk.count("dep:group-None-later")
         for sc in case.get("scenarios", []):
             chk.count("decoration:machine_id=" + sc["machine_id"])
+        for name, ids in rs.by_name.items():
+            if len(ids) > 1:
+                chk.count("shared-name:%d rules under one name" % len(ids))
+                kinds_ = sorted(set(final_kind for final_kind in (
+                    ("disabled" if not rs.eff[i]["enabled"] else next(r for r in case["rules"] if r["id"] == i)["act"]["k"]) for i in ids)))
+                chk.count("shared-name:return kinds " + "+".join(kinds_))
         chk.count("rules:%d" % len(case["rules"]))
         chk.count("limit:%s" % ("default" if case["limit"] == 65535 else "small"))
         chk.count("store_skips:%d" % case["store_skips"])
